@@ -14,8 +14,8 @@ PROP = 'C15'
 VARIANTS = ['asan-direct']
 PPMS = [1e-3, 0.5, 1.0, 12.0, 96.5, 1000.0, 2048.0, 4096.0]
 RULE = ('Hypothesis: (font, text <= 24, dir 0..7, enc) x ppm from {1e-3, 0.5, 1, 12, 96.5, upem, 2048, 4096, random in (0,4096]}. Oracle: gids / parents / before / after / user attributes '
-        'identical to font=NULL; |value - NULL value * ppm/upem| <= 1e-5 * max(1, line extent in design units) * ppm/upem for every origin x/y, advance x/y and the segment advance '
-        '(observed worst relative deviation 2e-7; a missing scale factor is off by orders of magnitude). Non-trivial: the segment has an attached or shifted glyph or runs right to left. Distinct by case JSON.')
+        'identical to font=NULL; |value - NULL value * ppm/upem| <= 1e-5 * (largest design-unit magnitude compared, >= 1) * ppm/upem for every origin x/y, advance x/y (with and without the face argument) and the segment advance '
+        '(observed worst relative deviation 2e-7; a missing scale factor is off by orders of magnitude). Non-trivial: the segment has an attached or shifted glyph or runs right to left. Second generator: left-to-right segments cut into two lines, the second line justified to 1.25 x its natural width with font NULL and with a font (width scaled), origins of that line and the returned width compared (slack: one design unit per slot, the engine hands stretch out in whole units). Distinct by case JSON.')
 ASSUME = ['unhinted fonts only (gr_make_font without advance callbacks)', 'tolerance stated above; float32 arithmetic in the engine']
 
 
